@@ -82,6 +82,19 @@ def replay(case):
                             out.append(('%s:%s:scaled:%s' % (tag, cfg['guess'], kind), 'right-hand side scaled by 2^%d: the result is not the '
                                         'scaled exact solution (relative error %.3e, ranks %r)' % (e2, errs / scale, getattr(rs, 'ranks', None))))
                             break
+                    # the same guess with its scale spread unevenly over the cores (core 1 x 2^50, last core x 2^-50: exact in floating
+                    # point, the same tensor): the solver starts from the tensor it was given, whatever the magnitude of single cores
+                    if d >= 3:
+                        xg = x0.copy()
+                        xg.cores[1] = xg.cores[1] * 2.0 ** 50
+                        xg.cores[-1] = xg.cores[-1] * 2.0 ** -50
+                        f_ = sle.als if name == 'als' else sle.mals
+                        kw3 = {} if name == 'als' else dict(threshold=0, max_rank=max(x0.ranks))
+                        rg_ = f_(A, xg, b, repeats=1, solver=micro, **kw3)
+                        errg = float(np.max(np.abs(dense_vec(rg_) - xsd))) if not metadata_problem(rg_) else np.inf
+                        if not errg <= 1e-7 * scale:
+                            out.append(('%s:%s:uneven-guess:%s' % (tag, cfg['guess'], kind), 'guess with unevenly scaled cores (x 2^50, x 2^-50; the '
+                                        'same tensor): the result is not x* (max abs error %.3e, dims %r)' % (errg, cfg['dims'])))
                     # second use of one operator object: solve, then the caller re-scales the operator in place (first core x 3:
                     # the operator 3A) and solves 3A x = 3b with the same object - the solution is the same x*
                     A2 = A.copy()
